@@ -1,13 +1,19 @@
 #!/bin/bash
-# usage: seedtest.sh <seed-dir-name> [property] [tier]  — applies the seeded change to /repo, runs the check, reverts.
+# usage: seedtest.sh <seed-dir-name> [property] [tier]
+# Applies the seeded change in a private scratch worktree of /repo (never /repo itself), runs the check
+# against it (VERIF_REPO_SRC), removes the worktree.  Safe to run concurrently.
 cd /verif
 d=seeded/$1
 pid=${2:-$(python3 -c "import json;print(json.load(open('$d/meta.json'))['property'])")}
 tier=${3:-quick}
-git -C /repo apply $PWD/$d/patch.diff || exit 9
-./vf check $pid $tier > /tmp/seedtest.$1.$pid.log 2>&1
+wt=$(mktemp -d /tmp/seedwt.XXXXXX)
+rmdir $wt
+git -C /repo worktree add -q --detach $wt HEAD || exit 9
+git -C $wt apply $PWD/$d/patch.diff || { git -C /repo worktree remove --force $wt; echo "$1: patch does not apply"; exit 9; }
+ev=$(mktemp -d /tmp/seedev.XXXXXX)
+VERIF_REPO_SRC=$wt/src VERIF_EVIDENCE_DIR=$ev ./vf check $pid $tier > /tmp/seedtest.$1.$pid.log 2>&1
 rc=$?
-git -C /repo checkout -- .
+git -C /repo worktree remove --force $wt
+rm -rf $ev
 echo "$1 $pid $tier exit=$rc $(grep -c '^VIOLATION' /tmp/seedtest.$1.$pid.log) violation(s)"
-git checkout -q -- evidence 2>/dev/null
 exit 0
